@@ -2,60 +2,114 @@ import PermutaModel.Lemmas.C07Sched
 import PermutaModel.Lemmas.C07Progress
 import PermutaModel.Lemmas.C02SeqOK
 import PermutaModel.Generated.Tables
+import PermutaModel.Driver.C07
 
 /-!
 # C07 — concurrent queries on a permutation class are correct under every interleaving
 
-`Model.C07.step` is the small-step semantics of threads executing `Av._get_level` under the lock
-discipline found in the source (`Generated.lockDiscipline`).  The theorems quantify over every
-number of threads, every assignment of levels to fetch and **every schedule**.  They are generic
+`Model.C07.step d` is the small-step semantics of threads executing `Av._get_level` under a lock
+discipline `d : Disc`: the plain one (`with LOCK: ensure`, then read) or double-checked locking
+(`d.fast`: an existing level is read without the lock, `d.guard` being the lock-free test).  The discipline
+found in the source is `Model.C07.sourceDisc`, built from `Generated.lockDiscipline` /
+`Generated.lockFastPath`.  The theorems quantify over every discipline whose lock-free test implies that
+the level exists (`d.OK`), every number of threads, every assignment of levels to fetch and
+**every schedule**.  They are generic
 in the sequential theory: `C07L.SeqOK spec Good` is the statement about `_ensure_level` that
 `Props/C02.lean` provides for the cache invariant.
 -/
 namespace C07
 open Model.C02 Model.C07 C07L
 
-/-- the source still has the lock discipline the theorems below are about: every `_ensure_level`
-    call is inside `with Av._CACHE_LOCK`, the result is read after the block, and the lock is a
-    class attribute shared by all instances.  (Regenerated from permset.py on every run; removing
-    or narrowing the critical section breaks this obligation.) -/
-theorem lock_discipline_matches_source : Generated.lockDiscipline = (true, true, true) := by decide
+/-- the source still has a lock discipline the theorems below are about: every `_ensure_level`
+    call is inside `with Av._CACHE_LOCK`, the result is read after the block — except on the recognised
+    lock-free fast path `if <… level_number < len(self.cache) …>: return self.cache[level_number]`, whose
+    presence is `Generated.lockFastPath` —, and the lock is a class attribute shared by all instances; and
+    the discipline `sourceDisc` the driver runs and the `source_*` theorems are instantiated with is the
+    one generated from that flag, and is sound.  (Regenerated from permset.py on every run; removing or
+    narrowing the critical section, or any other read of the cache before it, breaks this obligation.) -/
+theorem lock_discipline_matches_source :
+    Generated.lockDiscipline = (true, true, true) ∧
+    sourceDisc = Disc.ofFlag Generated.lockFastPath ∧ sourceDisc.OK :=
+  ⟨by decide, rfl, Disc.ofFlag_ok _⟩
 
-/-- a thread that wants the lock while another holds it does not move (blocking is a stutter) -/
-theorem blocked_stutters (s : Sys) (tid : Nat) (t : Thread) (n : Nat) (rest : List Nat) (holder : Nat)
+/-- both disciplines the translator can report are covered by the theorems below -/
+theorem both_disciplines_ok : (Disc.ofFlag false).OK ∧ (Disc.ofFlag true).OK ∧ Disc.locked.OK :=
+  ⟨Disc.ofFlag_ok _, Disc.ofFlag_ok _, Disc.locked_ok⟩
+
+/-- plain discipline: a thread that wants the lock while another holds it does not move (blocking is a stutter) -/
+theorem blocked_stutters (d : Disc) (hf : d.fast = false) (s : Sys) (tid : Nat) (t : Thread) (n : Nat)
+    (rest : List Nat) (holder : Nat)
     (ht : s.threads[tid]? = some t) (hp : t.phase = .idle) (htd : t.todo = n :: rest)
-    (hl : s.lock = some holder) : step s tid = s := by
-  unfold step; simp [ht, hp, htd, hl]
+    (hl : s.lock = some holder) : step d s tid = s := by
+  unfold step; simp [ht, hp, htd, hl, hf, tryAcquire]
+
+/-- any discipline: a thread committed to the locked path does not move while another holds the lock -/
+theorem blocked_stutters_waiting (d : Disc) (s : Sys) (tid : Nat) (t : Thread) (n : Nat) (holder : Nat)
+    (ht : s.threads[tid]? = some t) (hp : t.phase = .waiting n)
+    (hl : s.lock = some holder) : step d s tid = s := by
+  unfold step; simp [ht, hp, hl, tryAcquire]
+
+/-- fast path: a thread whose level passes the lock-free test is **not** blocked by a held lock — it goes
+    straight to the read, and neither the lock nor the shared object is touched -/
+theorem fast_path_not_blocked (d : Disc) (hf : d.fast = true) (s : Sys) (tid : Nat) (t : Thread) (n : Nat)
+    (rest : List Nat) (ht : s.threads[tid]? = some t) (hp : t.phase = .idle) (htd : t.todo = n :: rest)
+    (hg : d.guard n s.obj.cache.length = true) :
+    step d s tid = s.setThread tid { t with todo := rest, phase := .reading n } ∧
+    (step d s tid).lock = s.lock ∧ (step d s tid).obj = s.obj := by
+  have : step d s tid = s.setThread tid { t with todo := rest, phase := .reading n } := by
+    unfold step; simp [ht, hp, htd, hf, hg]
+  rw [this]; exact ⟨rfl, rfl, rfl⟩
+
+/-- **nothing changes for the plain discipline**: without the fast path the machine never enters the phase
+    `waiting` that double-checked locking adds (it is, state for state, the machine with the four phases
+    idle / holding / reading / failed), and the lock-free test is never looked at -/
+theorem plain_discipline_never_waits (d : Disc) (hf : d.fast = false) (o : AvObj) (todos : List (List Nat))
+    (sched : List Nat) (tid : Nat) (t : Thread)
+    (ht : (run d (initSys o todos) sched).threads[tid]? = some t) (n : Nat) : t.phase ≠ .waiting n :=
+  run_noWaiting hf sched (init_noWaiting o todos) t (List.mem_iff_getElem?.mpr ⟨tid, ht⟩) n
+
+theorem plain_discipline_ignores_guard (d : Disc) (hf : d.fast = false) (s : Sys) (sched : List Nat) :
+    run d s sched = run Disc.locked s sched := by
+  have hstep : ∀ s tid, step d s tid = step Disc.locked s tid := by
+    intro s tid
+    unfold step
+    simp only [hf, Disc.locked]
+  induction sched generalizing s with
+  | nil => rfl
+  | cons a rest ih => show run d (step d s a) rest = run Disc.locked (step Disc.locked s a) rest; rw [hstep, ih]
 
 /-- **mutual exclusion**: in every reachable state at most one thread is inside the critical section,
-    and it is the lock holder -/
-theorem mutex {spec Good} (hs : SeqOK spec Good) (o : AvObj) (ho : Good o) (todos : List (List Nat))
+    and it is the lock holder (lock-free readers never enter it) -/
+theorem mutex {spec Good} (hs : SeqOK spec Good) {d : Disc} (hd : d.OK) (o : AvObj) (ho : Good o)
+    (todos : List (List Nat))
     (sched : List Nat) (i j : Nat) (ti tj : Thread) (ni nj : Nat) (pi pj : List AvObj)
-    (hi : (run (initSys o todos) sched).threads[i]? = some ti) (hpi : ti.phase = .holding ni pi)
-    (hj : (run (initSys o todos) sched).threads[j]? = some tj) (hpj : tj.phase = .holding nj pj) :
-    i = j ∧ (run (initSys o todos) sched).lock = some i := by
-  obtain ⟨base, hinv⟩ := run_inv hs sched (init_inv hs o ho todos)
+    (hi : (run d (initSys o todos) sched).threads[i]? = some ti) (hpi : ti.phase = .holding ni pi)
+    (hj : (run d (initSys o todos) sched).threads[j]? = some tj) (hpj : tj.phase = .holding nj pj) :
+    i = j ∧ (run d (initSys o todos) sched).lock = some i := by
+  obtain ⟨base, hinv⟩ := run_inv hs hd sched (init_inv hs o ho todos)
   have h1 := (hinv.thr i ti hi).1; rw [hpi] at h1
   have h2 := (hinv.thr j tj hj).1; rw [hpj] at h2
   have : some i = some j := h1.1.symm.trans h2.1
   exact ⟨Option.some.inj this, h1.1⟩
 
 /-- **every visible level is right at every moment**, including while another thread is in the middle
-    of building or compacting: a reader can never observe a partially built level -/
-theorem keys_always_ok {spec Good} (hs : SeqOK spec Good) (o : AvObj) (ho : Good o)
+    of building or compacting: a reader — with or without the lock — can never observe a partially built
+    level -/
+theorem keys_always_ok {spec Good} (hs : SeqOK spec Good) {d : Disc} (hd : d.OK) (o : AvObj) (ho : Good o)
     (todos : List (List Nat)) (sched : List Nat) :
-    VisibleOK spec (run (initSys o todos) sched).obj := by
-  obtain ⟨base, hinv⟩ := run_inv hs sched (init_inv hs o ho todos)
+    VisibleOK spec (run d (initSys o todos) sched).obj := by
+  obtain ⟨base, hinv⟩ := run_inv hs hd sched (init_inv hs o ho todos)
   exact hinv.vis
 
-/-- **main theorem**: for every number of threads, every assignment of levels to fetch and every
-    schedule, no thread ever fails (no `KeyError`/`AssertionError` from `valid_insertions`), and every
-    level a thread has read is the specification's level (as a set with multiplicities) -/
-theorem concurrent_correct {spec Good} (hs : SeqOK spec Good) (o : AvObj) (ho : Good o)
+/-- **main theorem**: for every lock discipline (plain or double-checked), every number of threads, every
+    assignment of levels to fetch and every schedule, no thread ever fails (no `KeyError`/`AssertionError`
+    from `valid_insertions`, no `IndexError` from the lock-free read), and every level a thread has read is
+    the specification's level (as a set with multiplicities) -/
+theorem concurrent_correct {spec Good} (hs : SeqOK spec Good) {d : Disc} (hd : d.OK) (o : AvObj) (ho : Good o)
     (todos : List (List Nat)) (sched : List Nat) (tid : Nat) (t : Thread)
-    (ht : (run (initSys o todos) sched).threads[tid]? = some t) :
+    (ht : (run d (initSys o todos) sched).threads[tid]? = some t) :
     (∀ e, t.phase ≠ .failed e) ∧ ∀ g ∈ t.got, g.2.Perm (spec g.1) := by
-  obtain ⟨base, hinv⟩ := run_inv hs sched (init_inv hs o ho todos)
+  obtain ⟨base, hinv⟩ := run_inv hs hd sched (init_inv hs o ho todos)
   have h := hinv.thr tid t ht
   refine ⟨?_, h.2⟩
   intro e he
@@ -63,112 +117,214 @@ theorem concurrent_correct {spec Good} (hs : SeqOK spec Good) (o : AvObj) (ho : 
 
 /-- whenever the lock is free the shared object is in a good (sequentially reachable) state, so a
     later sequential user of the class sees a consistent cache -/
-theorem quiescent_good {spec Good} (hs : SeqOK spec Good) (o : AvObj) (ho : Good o)
+theorem quiescent_good {spec Good} (hs : SeqOK spec Good) {d : Disc} (hd : d.OK) (o : AvObj) (ho : Good o)
     (todos : List (List Nat)) (sched : List Nat)
-    (hfree : (run (initSys o todos) sched).lock = none) : Good (run (initSys o todos) sched).obj := by
-  obtain ⟨base, hinv⟩ := run_inv hs sched (init_inv hs o ho todos)
+    (hfree : (run d (initSys o todos) sched).lock = none) : Good (run d (initSys o todos) sched).obj := by
+  obtain ⟨base, hinv⟩ := run_inv hs hd sched (init_inv hs o ho todos)
   rw [hinv.free hfree]; exact hinv.good
 
+/-! ## The lock-free fast path reads what the locked path would have returned -/
+
+/-- a thread that is about to read level `n` — after releasing the lock **or on the lock-free path** — finds
+    the level present (no `IndexError`) in every reachable state -/
+theorem reading_level_exists {spec Good} (hs : SeqOK spec Good) {d : Disc} (hd : d.OK) (o : AvObj) (ho : Good o)
+    (todos : List (List Nat)) (sched : List Nat) (tid : Nat) (t : Thread) (n : Nat)
+    (ht : (run d (initSys o todos) sched).threads[tid]? = some t) (hp : t.phase = .reading n) :
+    n < (run d (initSys o todos) sched).obj.cache.length := by
+  obtain ⟨base, hinv⟩ := run_inv hs hd sched (init_inv hs o ho todos)
+  have h := (hinv.thr tid t ht).1
+  rw [hp] at h; exact h
+
+/-- the shared cache never gets shorter along any schedule -/
+theorem cache_never_shrinks {spec Good} (hs : SeqOK spec Good) {d : Disc} (hd : d.OK) (o : AvObj) (ho : Good o)
+    (todos : List (List Nat)) (sched more : List Nat) :
+    (run d (initSys o todos) sched).obj.cache.length ≤ (run d (initSys o todos) (sched ++ more)).obj.cache.length := by
+  obtain ⟨base, hinv⟩ := run_inv hs hd sched (init_inv hs o ho todos)
+  have := run_len_mono hs hd more hinv
+  simpa [run, List.foldl_append] using this
+
+/-- **a fast-path read returns the keys the locked path would have returned**: whenever the lock-free test
+    passes for level `n` in a reachable state — even in the middle of another thread's critical section —
+    then at that moment and at every later moment (whatever the other threads do before the read
+    `self.cache[n]` is executed) level `n` is present and complete: its keys are the specification's, hence
+    the same (up to order) as those in the final state of a locked `_ensure_level(n)` started from *any*
+    good state `o'` of the class -/
+theorem fast_read_eq_locked_read {spec Good} (hs : SeqOK spec Good) {d : Disc} (hd : d.OK) (o : AvObj) (ho : Good o)
+    (todos : List (List Nat)) (sched : List Nat) (n : Nat)
+    (hg : d.guard n (run d (initSys o todos) sched).obj.cache.length = true) (more : List Nat) :
+    n < (run d (initSys o todos) (sched ++ more)).obj.cache.length ∧
+    (((run d (initSys o todos) (sched ++ more)).obj.cache.getD n []).keys).Perm (spec n) ∧
+    ∀ (o' : AvObj) (tr : List AvObj), Good o' → ensureTrace o' n = .ok tr →
+      (((run d (initSys o todos) (sched ++ more)).obj.cache.getD n []).keys).Perm
+        ((((o' :: tr).getLast (by simp)).cache.getD n []).keys) := by
+  have hn : n < (run d (initSys o todos) (sched ++ more)).obj.cache.length :=
+    Nat.lt_of_lt_of_le (hd n _ hg) (cache_never_shrinks hs hd o ho todos sched more)
+  have hk := keys_always_ok hs hd o ho todos (sched ++ more) n hn
+  refine ⟨hn, hk, ?_⟩
+  intro o' tr ho' htr
+  have hf := hs.final o' n tr ho' htr
+  exact hk.trans (hs.visible _ hf.1 n hf.2).symm
 
 /-! ## Instantiation with the C02 cache invariant: the statements about the real `Av` model -/
 
 /-- **C07 for `Av`**: threads sharing a freshly created class with any basis `Av` accepts (`ValidBasisV`:
-    `ValidBasis` for a classical basis, `True` for a mesh basis), any assignment of levels, any schedule: no thread fails and every level read is the
+    `ValidBasis` for a classical basis, `True` for a mesh basis), any sound lock discipline, any assignment of
+    levels, any schedule: no thread fails and every level read is the
     specification's level `Spec.C02.level` / `Spec.C02.meshLevel` (as a list up to order) -/
-theorem av_concurrent_correct (B : BasisV) (hB : C02L.ValidBasisV B) (todos : List (List Nat))
+theorem av_concurrent_correct {d : Disc} (hd : d.OK) (B : BasisV) (hB : C02L.ValidBasisV B) (todos : List (List Nat))
     (sched : List Nat) (tid : Nat) (t : Thread)
-    (ht : (run (initSys (freshObj B) todos) sched).threads[tid]? = some t) :
+    (ht : (run d (initSys (freshObj B) todos) sched).threads[tid]? = some t) :
     (∀ e, t.phase ≠ .failed e) ∧ ∀ g ∈ t.got, g.2.Perm (C02L.specLevel B g.1) :=
-  concurrent_correct (C02L.seqOK B) (freshObj B) ⟨C02L.ObjInv.fresh hB, C02L.freshObj_basis B⟩ todos sched tid t ht
+  concurrent_correct (C02L.seqOK B) hd (freshObj B) ⟨C02L.ObjInv.fresh hB, C02L.freshObj_basis B⟩ todos sched tid t ht
 
 /-- `av_concurrent_correct` for a mesh basis: every list of mesh patterns, no hypothesis -/
-theorem av_concurrent_correct_mesh (M : List Mesh) (todos : List (List Nat))
+theorem av_concurrent_correct_mesh {d : Disc} (hd : d.OK) (M : List Mesh) (todos : List (List Nat))
     (sched : List Nat) (tid : Nat) (t : Thread)
-    (ht : (run (initSys (freshObj (.mesh M)) todos) sched).threads[tid]? = some t) :
+    (ht : (run d (initSys (freshObj (.mesh M)) todos) sched).threads[tid]? = some t) :
     (∀ e, t.phase ≠ .failed e) ∧ ∀ g ∈ t.got, g.2.Perm (Spec.C02.meshLevel M g.1) :=
-  av_concurrent_correct (.mesh M) trivial todos sched tid t ht
+  av_concurrent_correct hd (.mesh M) trivial todos sched tid t ht
 
 /-- the same from any sequentially reachable (invariant-satisfying) state of the class, e.g. after
     arbitrary earlier single-threaded queries -/
-theorem av_concurrent_correct_from (o : AvObj) (ho : C02L.ObjInv o) (todos : List (List Nat))
+theorem av_concurrent_correct_from {d : Disc} (hd : d.OK) (o : AvObj) (ho : C02L.ObjInv o) (todos : List (List Nat))
     (sched : List Nat) (tid : Nat) (t : Thread)
-    (ht : (run (initSys o todos) sched).threads[tid]? = some t) :
+    (ht : (run d (initSys o todos) sched).threads[tid]? = some t) :
     (∀ e, t.phase ≠ .failed e) ∧ ∀ g ∈ t.got, g.2.Perm (C02L.specLevel o.basis g.1) :=
-  concurrent_correct (C02L.seqOK o.basis) o ⟨ho, rfl⟩ todos sched tid t ht
+  concurrent_correct (C02L.seqOK o.basis) hd o ⟨ho, rfl⟩ todos sched tid t ht
+
+/-- **C07 for the source as it is** (`sourceDisc`, whichever discipline the translator found) -/
+theorem source_concurrent_correct (B : BasisV) (hB : C02L.ValidBasisV B) (todos : List (List Nat))
+    (sched : List Nat) (tid : Nat) (t : Thread)
+    (ht : (run sourceDisc (initSys (freshObj B) todos) sched).threads[tid]? = some t) :
+    (∀ e, t.phase ≠ .failed e) ∧ ∀ g ∈ t.got, g.2.Perm (C02L.specLevel B g.1) :=
+  av_concurrent_correct lock_discipline_matches_source.2.2 B hB todos sched tid t ht
 
 /-- no thread ever observes a partially built or partially compacted level of an `Av` object -/
-theorem av_keys_always_ok (o : AvObj) (ho : C02L.ObjInv o) (todos : List (List Nat)) (sched : List Nat) :
-    VisibleOK (C02L.specLevel o.basis) (run (initSys o todos) sched).obj :=
-  keys_always_ok (C02L.seqOK o.basis) o ⟨ho, rfl⟩ todos sched
+theorem av_keys_always_ok {d : Disc} (hd : d.OK) (o : AvObj) (ho : C02L.ObjInv o) (todos : List (List Nat))
+    (sched : List Nat) :
+    VisibleOK (C02L.specLevel o.basis) (run d (initSys o todos) sched).obj :=
+  keys_always_ok (C02L.seqOK o.basis) hd o ⟨ho, rfl⟩ todos sched
 
 /-- after the threads are done (lock free) the shared object satisfies the sequential invariant again -/
-theorem av_quiescent_good (o : AvObj) (ho : C02L.ObjInv o) (todos : List (List Nat)) (sched : List Nat)
-    (hfree : (run (initSys o todos) sched).lock = none) :
-    C02L.ObjInv (run (initSys o todos) sched).obj :=
-  (quiescent_good (C02L.seqOK o.basis) o ⟨ho, rfl⟩ todos sched hfree).1
+theorem av_quiescent_good {d : Disc} (hd : d.OK) (o : AvObj) (ho : C02L.ObjInv o) (todos : List (List Nat))
+    (sched : List Nat)
+    (hfree : (run d (initSys o todos) sched).lock = none) :
+    C02L.ObjInv (run d (initSys o todos) sched).obj :=
+  (quiescent_good (C02L.seqOK o.basis) hd o ⟨ho, rfl⟩ todos sched hfree).1
 
-/-- necessity / non-vacuity of the model: *without* mutual exclusion the same machine reaches a state
-    in which a thread reads an empty level 3 of `Av(01)` (which really contains `210`): thread 0 builds
-    up to level 2, thread 1 up to level 3, and thread 0's stale write hides level 3 again. -/
-theorem nolock_exhibits_failure :
-    ((runNoLock (initSys (freshObj (.classical [[0,1]])) [[2], [3]]) [0, 0, 1, 1, 1, 1, 1, 1, 0, 1]).threads.map
-      (·.got)) = [[], [(3, [])]] := by decide
+/-- **fast-path read = locked read, for `Av`**: if the lock-free test passes for level `n` in any reachable
+    state of threads sharing `o`, the keys found at level `n` then and at any later moment are (up to order)
+    the answer of the sequential, locked `_get_level(n)` (`Model.C02.getLevel`) on `o` -/
+theorem av_fast_read_eq_locked_read {d : Disc} (hd : d.OK) (o : AvObj) (ho : C02L.ObjInv o)
+    (todos : List (List Nat)) (sched : List Nat) (n : Nat)
+    (hg : d.guard n (run d (initSys o todos) sched).obj.cache.length = true) (more : List Nat) :
+    ∃ o' ks, getLevel o n = .ok (o', ks) ∧
+      n < (run d (initSys o todos) (sched ++ more)).obj.cache.length ∧
+      (((run d (initSys o todos) (sched ++ more)).obj.cache.getD n []).keys).Perm ks := by
+  obtain ⟨o', ks, h1, _, hks⟩ := C02L.getLevel_spec o ho n
+  obtain ⟨hn, hk, _⟩ := fast_read_eq_locked_read (C02L.seqOK o.basis) hd o ⟨ho, rfl⟩ todos sched n hg more
+  exact ⟨o', ks, h1, hn, hk.trans hks.symm⟩
+
+/-- necessity / non-vacuity of the model: *without* mutual exclusion on the build path the same machine
+    — with or without the lock-free read — reaches a state in which a thread reads an empty level 3 of
+    `Av(01)` (which really contains `210`): thread 0 builds up to level 2, thread 1 up to level 3, and
+    thread 0's stale write hides level 3 again. -/
+theorem nolock_exhibits_failure (fast : Bool) :
+    ((runNoLock (Disc.ofFlag fast) (initSys (freshObj (.classical [[0,1]])) [[2], [3]])
+      [0, 0, 1, 1, 1, 1, 1, 1, 0, 1]).threads.map (·.got)) = [[], [(3, [])]] := by
+  cases fast <;> decide
 
 /-- with the lock, the same two threads under the analogous schedule both get the right levels -/
 example :
-    ((run (initSys (freshObj (.classical [[0,1]])) [[2], [3]]) [0, 0, 1, 1, 0, 0, 0, 0, 1, 1, 1, 1, 1, 1, 1, 1, 1]).threads.map
+    ((run (Disc.ofFlag false) (initSys (freshObj (.classical [[0,1]])) [[2], [3]])
+      [0, 0, 1, 1, 0, 0, 0, 0, 1, 1, 1, 1, 1, 1, 1, 1, 1]).threads.map
       (·.got)) = [[(2, [[1,0]])], [(3, [[2,1,0]])]] := by decide
+
+/-- … also under double-checked locking (one more step per query: the lock-free test) -/
+example :
+    ((run (Disc.ofFlag true) (initSys (freshObj (.classical [[0,1]])) [[2], [3]])
+      [0, 0, 0, 1, 1, 0, 0, 0, 0, 1, 1, 1, 1, 1, 1, 1, 1, 1, 1]).threads.map
+      (·.got)) = [[(2, [[1,0]])], [(3, [[2,1,0]])]] := by decide
+
+/-- **non-vacuity of the fast path**: thread 1 holds the lock and is in the middle of building level 2 of
+    `Av(01)` (level 1 already appended) when thread 0 reads level 1 lock-free and gets the right answer;
+    the lock is still held by thread 1 afterwards -/
+example :
+    (run (Disc.ofFlag true) (initSys (freshObj (.classical [[0,1]])) [[1], [2]]) [1, 1, 1, 0, 0]).lock = some 1 ∧
+    (run (Disc.ofFlag true) (initSys (freshObj (.classical [[0,1]])) [[1], [2]]) [1, 1, 1, 0, 0]).obj.cache.length = 2 ∧
+    (run (Disc.ofFlag true) (initSys (freshObj (.classical [[0,1]])) [[1], [2]]) [1, 1, 1, 0, 0]).threads.map
+      (fun t => (t.got, pending t)) = [([(1, [[0]])], []), ([], [2])] := by decide
+
+/-- … whereas under the plain discipline thread 0 is blocked by the same schedule prefix -/
+example :
+    (run (Disc.ofFlag false) (initSys (freshObj (.classical [[0,1]])) [[1], [2]]) [1, 1, 0, 0]).lock = some 1 ∧
+    (run (Disc.ofFlag false) (initSys (freshObj (.classical [[0,1]])) [[1], [2]]) [1, 1, 0, 0]).threads.map
+      (fun t => (t.got, t.todo)) = [([], [1]), ([], [])] := by decide
+
+/-- the hypothesis of `av_fast_read_eq_locked_read` holds in that state (test `1 < 2`), and the theorem's
+    conclusion is the concrete locked answer `[[0]]` -/
+example : (Disc.ofFlag true).guard 1
+    (run (Disc.ofFlag true) (initSys (freshObj (.classical [[0,1]])) [[1], [2]]) [1, 1, 1]).obj.cache.length = true ∧
+    (getLevel (freshObj (.classical [[0,1]])) 1).toOption.map (·.2) = some [[0]] := by decide
 
 /-! ## Completeness of the answers, deadlock freedom, progress under fairness
 
 `C07L.account t` = levels already answered ++ level in flight ++ levels not yet asked for;
-`C07L.mu s` = Σ over threads of (writes left in the critical section + release + read) + `2n+4` for every
-level `n` still to fetch (acquire, at most `2n+1` writes, release, read); `C07L.AllDone s` = every thread
-is idle with nothing left to fetch.  `C07L.totalCost todos = Σ (2n+4)` over all requested levels. -/
+`C07L.mu fast s` = Σ over threads of (writes left in the critical section + release + read) + `2n+4` (`2n+5`
+with the fast path: one more for the lock-free test) for every level `n` still to fetch (acquire, at most
+`2n+1` writes, release, read); `C07L.AllDone s` = every thread is idle with nothing left to fetch.
+`C07L.totalCost fast todos = Σ (2n+4)` resp. `Σ (2n+5)` over all requested levels. -/
 
-/-- **bookkeeping, every schedule, every moment**: what a thread has answered so far, followed by the level it
-    is fetching right now (if any), followed by what it has not asked for yet, is exactly its list of
-    requests — nothing is skipped, duplicated or reordered (no sequential theory needed) -/
-theorem results_complete (o : AvObj) (todos : List (List Nat)) (sched : List Nat) (tid : Nat) (t : Thread)
-    (ht : (run (initSys o todos) sched).threads[tid]? = some t) :
+/-- **bookkeeping, every discipline, every schedule, every moment**: what a thread has answered so far,
+    followed by the level it is fetching right now (if any), followed by what it has not asked for yet, is
+    exactly its list of requests — nothing is skipped, duplicated or reordered (no sequential theory needed) -/
+theorem results_complete (d : Disc) (o : AvObj) (todos : List (List Nat)) (sched : List Nat) (tid : Nat) (t : Thread)
+    (ht : (run d (initSys o todos) sched).threads[tid]? = some t) :
     todos[tid]? = some (t.got.map (·.1) ++ pending t ++ t.todo) := by
-  have h := run_account sched (initSys o todos)
+  have h := run_account d sched (initSys o todos)
   rw [init_account] at h
   have := congrArg (·[tid]?) h
   simp only [List.getElem?_map, ht, Option.map_some] at this
   exact this.symm
 
-example : ((run (initSys (freshObj (.classical [[0,1]])) [[2, 1], [3]]) [0, 0, 1, 0, 0, 0, 0]).threads.map
+example : ((run (Disc.ofFlag false) (initSys (freshObj (.classical [[0,1]])) [[2, 1], [3]]) [0, 0, 1, 0, 0, 0, 0]).threads.map
     fun t => (t.got.map (·.1), pending t, t.todo)) = [([2], [], [1]), ([], [], [3])] := by decide
 
 /-- … and in the middle of a critical section the level in flight is accounted for -/
-example : ((run (initSys (freshObj (.classical [[0,1]])) [[2, 1], [3]]) [0, 0, 1, 0]).threads.map
+example : ((run (Disc.ofFlag false) (initSys (freshObj (.classical [[0,1]])) [[2, 1], [3]]) [0, 0, 1, 0]).threads.map
     fun t => (t.got.map (·.1), pending t, t.todo)) = [([], [2], [1]), ([], [], [3])] := by decide
+
+/-- … with the fast path: a thread committed to the locked path (thread 1, waiting) has its level in flight;
+    thread 0 ends with level 1 answered lock-free after level 2 -/
+example : ((run (Disc.ofFlag true) (initSys (freshObj (.classical [[0,1]])) [[2, 1], [3]])
+    [0, 0, 0, 1, 0, 0, 0, 0, 0, 0]).threads.map
+    fun t => (t.got.map (·.1), pending t, t.todo)) = [([2, 1], [], []), ([], [3], [])] := by decide
 
 /-- **every query returns exactly what it would return when run alone (specification form)**: a thread that
     is finished has answered exactly its requested levels, in order, each with the specification's keys;
     and it has not failed -/
-theorem finished_results {spec Good} (hs : SeqOK spec Good) (o : AvObj) (ho : Good o)
+theorem finished_results {spec Good} (hs : SeqOK spec Good) {d : Disc} (hd : d.OK) (o : AvObj) (ho : Good o)
     (todos : List (List Nat)) (sched : List Nat) (tid : Nat) (t : Thread)
-    (ht : (run (initSys o todos) sched).threads[tid]? = some t) (hd : Done t) :
+    (ht : (run d (initSys o todos) sched).threads[tid]? = some t) (hdn : Done t) :
     todos[tid]? = some (t.got.map (·.1)) ∧ ∀ g ∈ t.got, g.2.Perm (spec g.1) := by
-  refine ⟨?_, (concurrent_correct hs o ho todos sched tid t ht).2⟩
-  have := results_complete o todos sched tid t ht
-  simpa [pending, hd.1, hd.2] using this
+  refine ⟨?_, (concurrent_correct hs hd o ho todos sched tid t ht).2⟩
+  have := results_complete d o todos sched tid t ht
+  simpa [pending, hdn.1, hdn.2] using this
 
-/-- **… (run-alone form)**: the answers of a finished thread under any schedule, whatever the other threads
-    ask, agree item by item (same level, same keys up to order) with the answers of a thread that runs the
-    same requests alone on the same object under any schedule `sched'` that lets it finish -/
-theorem same_as_alone {spec Good} (hs : SeqOK spec Good) (o : AvObj) (ho : Good o)
+/-- **… (run-alone form)**: the answers of a finished thread under any schedule and any sound discipline `d`,
+    whatever the other threads ask, agree item by item (same level, same keys up to order) with the answers
+    of a thread that runs the same requests alone on the same object under any sound discipline `d'` — in
+    particular the plain locked one — and any schedule `sched'` that lets it finish -/
+theorem same_as_alone {spec Good} (hs : SeqOK spec Good) {d d' : Disc} (hd : d.OK) (hd' : d'.OK) (o : AvObj) (ho : Good o)
     (todos : List (List Nat)) (sched : List Nat) (tid : Nat) (t : Thread) (td : List Nat)
     (htd : todos[tid]? = some td)
-    (ht : (run (initSys o todos) sched).threads[tid]? = some t) (hd : Done t)
+    (ht : (run d (initSys o todos) sched).threads[tid]? = some t) (hdn : Done t)
     (sched' : List Nat) (t' : Thread)
-    (ht' : (run (initSys o [td]) sched').threads[0]? = some t') (hd' : Done t') :
+    (ht' : (run d' (initSys o [td]) sched').threads[0]? = some t') (hdn' : Done t') :
     t.got.map (·.1) = t'.got.map (·.1) ∧
     ∀ (i : Nat) (g g' : Nat × List NSeq), t.got[i]? = some g → t'.got[i]? = some g' → g.1 = g'.1 ∧ g.2.Perm g'.2 := by
-  obtain ⟨h1, h2⟩ := finished_results hs o ho todos sched tid t ht hd
-  obtain ⟨h1', h2'⟩ := finished_results hs o ho [td] sched' 0 t' ht' hd'
+  obtain ⟨h1, h2⟩ := finished_results hs hd o ho todos sched tid t ht hdn
+  obtain ⟨h1', h2'⟩ := finished_results hs hd' o ho [td] sched' 0 t' ht' hdn'
   rw [htd] at h1
   simp only [List.getElem?_cons_zero] at h1'
   have hm : t.got.map (·.1) = t'.got.map (·.1) := (Option.some.inj h1).symm.trans (Option.some.inj h1')
@@ -184,76 +340,80 @@ theorem same_as_alone {spec Good} (hs : SeqOK spec Good) (o : AvObj) (ho : Good 
   exact p1.trans p2.symm
 
 /-- a state in which every thread is finished is final: no schedule changes it -/
-theorem finished_is_final (s : Sys) (hd : AllDone s) (sched : List Nat) : run s sched = s :=
-  run_allDone hd sched
+theorem finished_is_final (d : Disc) (s : Sys) (hdn : AllDone s) (sched : List Nat) : run d s sched = s :=
+  run_allDone hdn sched
 
-/-- the remaining-work bound never increases and starts at `totalCost todos = Σ (2n+4)` -/
-theorem remaining_work_le (o : AvObj) (todos : List (List Nat)) (pre : List Nat) :
-    mu (run (initSys o todos) pre) ≤ totalCost todos := by
-  have := run_mu_le pre (initSys o todos)
+/-- the remaining-work bound never increases and starts at `totalCost = Σ (2n+4)` (`Σ (2n+5)` with the
+    fast path) -/
+theorem remaining_work_le (d : Disc) (o : AvObj) (todos : List (List Nat)) (pre : List Nat) :
+    mu d.fast (run d (initSys o todos) pre) ≤ totalCost d.fast todos := by
+  have := run_mu_le d pre (initSys o todos)
   rwa [init_mu] at this
 
+/-- the plain discipline keeps its bound `Σ (2n+4)`; the fast path costs one more step per request -/
+example : totalCost false [[2], [3]] = 18 ∧ totalCost true [[2], [3]] = 20 := by decide
+
 /-- **deadlock freedom**: after *any* schedule prefix there is a continuation — of at most
-    `mu (current state)` ≤ `Σ (2n+4)` steps — after which every thread is finished and the lock is free -/
-theorem deadlock_free {spec Good} (hs : SeqOK spec Good) (o : AvObj) (ho : Good o)
+    `mu (current state)` ≤ `totalCost` steps — after which every thread is finished and the lock is free -/
+theorem deadlock_free {spec Good} (hs : SeqOK spec Good) {d : Disc} (hd : d.OK) (o : AvObj) (ho : Good o)
     (todos : List (List Nat)) (pre : List Nat) :
-    ∃ cont : List Nat, cont.length ≤ mu (run (initSys o todos) pre) ∧
-      cont.length ≤ totalCost todos ∧
-      AllDone (run (initSys o todos) (pre ++ cont)) ∧ (run (initSys o todos) (pre ++ cont)).lock = none := by
-  have hr : Reach spec Good (run (initSys o todos) pre) := (Reach.init hs o ho todos).run hs pre
-  obtain ⟨cont, hlen, hdone⟩ := exists_completion hs _ hr (Nat.le_refl _)
-  have hsplit : run (initSys o todos) (pre ++ cont) = run (run (initSys o todos) pre) cont := by
+    ∃ cont : List Nat, cont.length ≤ mu d.fast (run d (initSys o todos) pre) ∧
+      cont.length ≤ totalCost d.fast todos ∧
+      AllDone (run d (initSys o todos) (pre ++ cont)) ∧ (run d (initSys o todos) (pre ++ cont)).lock = none := by
+  have hr : Reach spec Good (run d (initSys o todos) pre) := (Reach.init hs o ho todos).run hs hd pre
+  obtain ⟨cont, hlen, hdone⟩ := exists_completion hs hd _ hr (Nat.le_refl _)
+  have hsplit : run d (initSys o todos) (pre ++ cont) = run d (run d (initSys o todos) pre) cont := by
     simp [run, List.foldl_append]
-  refine ⟨cont, hlen, Nat.le_trans hlen (remaining_work_le o todos pre), ?_, ?_⟩
+  refine ⟨cont, hlen, Nat.le_trans hlen (remaining_work_le d o todos pre), ?_, ?_⟩
   · rw [hsplit]; exact hdone
-  · rw [hsplit]; exact allDone_lock_free (hr.run hs cont).2 hdone
+  · rw [hsplit]; exact allDone_lock_free (hr.run hs hd cont).2 hdone
 
 /-- **progress under fairness**: after any prefix, any continuation that can be cut into at least
     `mu (current state)` *fair rounds* — segments in which every thread id occurs at least once, in any order,
     with any repetitions — ends with every thread finished and the lock free -/
-theorem fair_progress {spec Good} (hs : SeqOK spec Good) (o : AvObj) (ho : Good o)
+theorem fair_progress {spec Good} (hs : SeqOK spec Good) {d : Disc} (hd : d.OK) (o : AvObj) (ho : Good o)
     (todos : List (List Nat)) (pre : List Nat) (segs : List (List Nat))
     (hfair : ∀ seg ∈ segs, ∀ tid, tid < todos.length → tid ∈ seg)
-    (hlen : mu (run (initSys o todos) pre) ≤ segs.length) :
-    AllDone (run (initSys o todos) (pre ++ segs.flatten)) ∧
-      (run (initSys o todos) (pre ++ segs.flatten)).lock = none := by
-  have hr : Reach spec Good (run (initSys o todos) pre) := (Reach.init hs o ho todos).run hs pre
-  have hsplit : run (initSys o todos) (pre ++ segs.flatten) = run (run (initSys o todos) pre) segs.flatten := by
+    (hlen : mu d.fast (run d (initSys o todos) pre) ≤ segs.length) :
+    AllDone (run d (initSys o todos) (pre ++ segs.flatten)) ∧
+      (run d (initSys o todos) (pre ++ segs.flatten)).lock = none := by
+  have hr : Reach spec Good (run d (initSys o todos) pre) := (Reach.init hs o ho todos).run hs hd pre
+  have hsplit : run d (initSys o todos) (pre ++ segs.flatten) = run d (run d (initSys o todos) pre) segs.flatten := by
     simp [run, List.foldl_append]
-  have hdone : AllDone (run (run (initSys o todos) pre) segs.flatten) := by
-    apply fair_rounds_finish hs segs hr _ hlen
+  have hdone : AllDone (run d (run d (initSys o todos) pre) segs.flatten) := by
+    apply fair_rounds_finish hs hd segs hr _ hlen
     intro seg hseg tid htid
     rw [run_length, init_length] at htid
     exact hfair seg hseg tid htid
   rw [hsplit]
-  exact ⟨hdone, allDone_lock_free (hr.run hs segs.flatten).2 hdone⟩
+  exact ⟨hdone, allDone_lock_free (hr.run hs hd segs.flatten).2 hdone⟩
 
-/-- instance: round-robin repeated `R ≥ Σ (2n+4)` times finishes everything, after any prefix -/
-theorem round_robin_progress {spec Good} (hs : SeqOK spec Good) (o : AvObj) (ho : Good o)
-    (todos : List (List Nat)) (pre : List Nat) (R : Nat) (hR : totalCost todos ≤ R) :
-    AllDone (run (initSys o todos) (pre ++ (List.replicate R (List.range todos.length)).flatten)) := by
-  refine (fair_progress hs o ho todos pre (List.replicate R (List.range todos.length)) ?_ ?_).1
+/-- instance: round-robin repeated `R ≥ totalCost` times finishes everything, after any prefix -/
+theorem round_robin_progress {spec Good} (hs : SeqOK spec Good) {d : Disc} (hd : d.OK) (o : AvObj) (ho : Good o)
+    (todos : List (List Nat)) (pre : List Nat) (R : Nat) (hR : totalCost d.fast todos ≤ R) :
+    AllDone (run d (initSys o todos) (pre ++ (List.replicate R (List.range todos.length)).flatten)) := by
+  refine (fair_progress hs hd o ho todos pre (List.replicate R (List.range todos.length)) ?_ ?_).1
   · intro seg hseg tid htid
     rw [(List.mem_replicate.mp hseg).2]
     exact List.mem_range.mpr htid
   · rw [List.length_replicate]
-    exact Nat.le_trans (remaining_work_le o todos pre) hR
+    exact Nat.le_trans (remaining_work_le d o todos pre) hR
 
 /-- **total correctness under fairness**: after any prefix followed by enough fair rounds, *every* thread
     has terminated without error and holds exactly the specification's answer to each of its requests, in
     order -/
-theorem fair_run_correct {spec Good} (hs : SeqOK spec Good) (o : AvObj) (ho : Good o)
+theorem fair_run_correct {spec Good} (hs : SeqOK spec Good) {d : Disc} (hd : d.OK) (o : AvObj) (ho : Good o)
     (todos : List (List Nat)) (pre : List Nat) (segs : List (List Nat))
     (hfair : ∀ seg ∈ segs, ∀ tid, tid < todos.length → tid ∈ seg)
-    (hlen : totalCost todos ≤ segs.length) (tid : Nat) (td : List Nat) (htd : todos[tid]? = some td) :
-    ∃ t, (run (initSys o todos) (pre ++ segs.flatten)).threads[tid]? = some t ∧ Done t ∧
+    (hlen : totalCost d.fast todos ≤ segs.length) (tid : Nat) (td : List Nat) (htd : todos[tid]? = some td) :
+    ∃ t, (run d (initSys o todos) (pre ++ segs.flatten)).threads[tid]? = some t ∧ Done t ∧
       t.got.map (·.1) = td ∧ ∀ g ∈ t.got, g.2.Perm (spec g.1) := by
-  have hdone := (fair_progress hs o ho todos pre segs hfair
-    (Nat.le_trans (remaining_work_le o todos pre) hlen)).1
-  have hlt : tid < (run (initSys o todos) (pre ++ segs.flatten)).threads.length := by
+  have hdone := (fair_progress hs hd o ho todos pre segs hfair
+    (Nat.le_trans (remaining_work_le d o todos pre) hlen)).1
+  have hlt : tid < (run d (initSys o todos) (pre ++ segs.flatten)).threads.length := by
     rw [run_length, init_length]; exact lt_of_getElem? htd
   refine ⟨_, List.getElem?_eq_getElem hlt, hdone _ (List.getElem_mem hlt), ?_⟩
-  obtain ⟨h1, h2⟩ := finished_results hs o ho todos _ tid _ (List.getElem?_eq_getElem hlt)
+  obtain ⟨h1, h2⟩ := finished_results hs hd o ho todos _ tid _ (List.getElem?_eq_getElem hlt)
     (hdone _ (List.getElem_mem hlt))
   rw [htd] at h1
   exact ⟨(Option.some.inj h1).symm, h2⟩
@@ -261,66 +421,172 @@ theorem fair_run_correct {spec Good} (hs : SeqOK spec Good) (o : AvObj) (ho : Go
 /-! ### … for the real `Av` model (sequential theory from C02) -/
 
 /-- a finished thread on an `Av` object holds exactly the specification's levels it asked for, in order -/
-theorem av_finished_results (o : AvObj) (ho : C02L.ObjInv o) (todos : List (List Nat)) (sched : List Nat)
-    (tid : Nat) (t : Thread) (ht : (run (initSys o todos) sched).threads[tid]? = some t) (hd : Done t) :
+theorem av_finished_results {d : Disc} (hd : d.OK) (o : AvObj) (ho : C02L.ObjInv o) (todos : List (List Nat))
+    (sched : List Nat)
+    (tid : Nat) (t : Thread) (ht : (run d (initSys o todos) sched).threads[tid]? = some t) (hdn : Done t) :
     todos[tid]? = some (t.got.map (·.1)) ∧ ∀ g ∈ t.got, g.2.Perm (C02L.specLevel o.basis g.1) :=
-  finished_results (C02L.seqOK o.basis) o ⟨ho, rfl⟩ todos sched tid t ht hd
+  finished_results (C02L.seqOK o.basis) hd o ⟨ho, rfl⟩ todos sched tid t ht hdn
 
-/-- concurrent answers on an `Av` object = answers of the same requests run alone -/
-theorem av_same_as_alone (o : AvObj) (ho : C02L.ObjInv o) (todos : List (List Nat)) (sched : List Nat)
+/-- concurrent answers on an `Av` object (any sound discipline) = answers of the same requests run alone
+    (any sound discipline, e.g. the plain locked one) -/
+theorem av_same_as_alone {d d' : Disc} (hd : d.OK) (hd' : d'.OK) (o : AvObj) (ho : C02L.ObjInv o)
+    (todos : List (List Nat)) (sched : List Nat)
     (tid : Nat) (t : Thread) (td : List Nat) (htd : todos[tid]? = some td)
-    (ht : (run (initSys o todos) sched).threads[tid]? = some t) (hd : Done t)
+    (ht : (run d (initSys o todos) sched).threads[tid]? = some t) (hdn : Done t)
     (sched' : List Nat) (t' : Thread)
-    (ht' : (run (initSys o [td]) sched').threads[0]? = some t') (hd' : Done t') :
+    (ht' : (run d' (initSys o [td]) sched').threads[0]? = some t') (hdn' : Done t') :
     t.got.map (·.1) = t'.got.map (·.1) ∧
     ∀ (i : Nat) (g g' : Nat × List NSeq), t.got[i]? = some g → t'.got[i]? = some g' → g.1 = g'.1 ∧ g.2.Perm g'.2 :=
-  same_as_alone (C02L.seqOK o.basis) o ⟨ho, rfl⟩ todos sched tid t td htd ht hd sched' t' ht' hd'
+  same_as_alone (C02L.seqOK o.basis) hd hd' o ⟨ho, rfl⟩ todos sched tid t td htd ht hdn sched' t' ht' hdn'
 
-/-- threads sharing an `Av` object can never deadlock: from every reachable state at most `Σ (2n+4)` further
+/-- threads sharing an `Av` object can never deadlock: from every reachable state at most `totalCost` further
     steps finish everybody -/
-theorem av_deadlock_free (o : AvObj) (ho : C02L.ObjInv o) (todos : List (List Nat)) (pre : List Nat) :
-    ∃ cont : List Nat, cont.length ≤ mu (run (initSys o todos) pre) ∧
-      cont.length ≤ totalCost todos ∧
-      AllDone (run (initSys o todos) (pre ++ cont)) ∧ (run (initSys o todos) (pre ++ cont)).lock = none :=
-  deadlock_free (C02L.seqOK o.basis) o ⟨ho, rfl⟩ todos pre
+theorem av_deadlock_free {d : Disc} (hd : d.OK) (o : AvObj) (ho : C02L.ObjInv o) (todos : List (List Nat))
+    (pre : List Nat) :
+    ∃ cont : List Nat, cont.length ≤ mu d.fast (run d (initSys o todos) pre) ∧
+      cont.length ≤ totalCost d.fast todos ∧
+      AllDone (run d (initSys o todos) (pre ++ cont)) ∧ (run d (initSys o todos) (pre ++ cont)).lock = none :=
+  deadlock_free (C02L.seqOK o.basis) hd o ⟨ho, rfl⟩ todos pre
 
-/-- **C07, total form, for `Av`**: any basis `Av` accepts, any number of threads, any requests, any schedule
-    prefix followed by `Σ (2n+4)` fair rounds: every thread has terminated and holds, for each of its
-    requests in order, the specification's level -/
-theorem av_fair_run_correct (B : BasisV) (hB : C02L.ValidBasisV B) (todos : List (List Nat))
+/-- **C07, total form, for `Av`**: any basis `Av` accepts, any sound discipline, any number of threads, any
+    requests, any schedule prefix followed by `totalCost` fair rounds: every thread has terminated and holds,
+    for each of its requests in order, the specification's level -/
+theorem av_fair_run_correct {d : Disc} (hd : d.OK) (B : BasisV) (hB : C02L.ValidBasisV B) (todos : List (List Nat))
     (pre : List Nat) (segs : List (List Nat))
     (hfair : ∀ seg ∈ segs, ∀ tid, tid < todos.length → tid ∈ seg)
-    (hlen : totalCost todos ≤ segs.length) (tid : Nat) (td : List Nat) (htd : todos[tid]? = some td) :
-    ∃ t, (run (initSys (freshObj B) todos) (pre ++ segs.flatten)).threads[tid]? = some t ∧ Done t ∧
+    (hlen : totalCost d.fast todos ≤ segs.length) (tid : Nat) (td : List Nat) (htd : todos[tid]? = some td) :
+    ∃ t, (run d (initSys (freshObj B) todos) (pre ++ segs.flatten)).threads[tid]? = some t ∧ Done t ∧
       t.got.map (·.1) = td ∧ ∀ g ∈ t.got, g.2.Perm (C02L.specLevel B g.1) :=
-  fair_run_correct (C02L.seqOK B) (freshObj B) ⟨C02L.ObjInv.fresh hB, C02L.freshObj_basis B⟩ todos pre segs
+  fair_run_correct (C02L.seqOK B) hd (freshObj B) ⟨C02L.ObjInv.fresh hB, C02L.freshObj_basis B⟩ todos pre segs
     hfair hlen tid td htd
 
 /-- the same from any sequentially reachable (invariant-satisfying) state of the class -/
-theorem av_fair_run_correct_from (o : AvObj) (ho : C02L.ObjInv o) (todos : List (List Nat))
+theorem av_fair_run_correct_from {d : Disc} (hd : d.OK) (o : AvObj) (ho : C02L.ObjInv o) (todos : List (List Nat))
     (pre : List Nat) (segs : List (List Nat))
     (hfair : ∀ seg ∈ segs, ∀ tid, tid < todos.length → tid ∈ seg)
-    (hlen : totalCost todos ≤ segs.length) (tid : Nat) (td : List Nat) (htd : todos[tid]? = some td) :
-    ∃ t, (run (initSys o todos) (pre ++ segs.flatten)).threads[tid]? = some t ∧ Done t ∧
+    (hlen : totalCost d.fast todos ≤ segs.length) (tid : Nat) (td : List Nat) (htd : todos[tid]? = some td) :
+    ∃ t, (run d (initSys o todos) (pre ++ segs.flatten)).threads[tid]? = some t ∧ Done t ∧
       t.got.map (·.1) = td ∧ ∀ g ∈ t.got, g.2.Perm (C02L.specLevel o.basis g.1) :=
-  fair_run_correct (C02L.seqOK o.basis) o ⟨ho, rfl⟩ todos pre segs hfair hlen tid td htd
+  fair_run_correct (C02L.seqOK o.basis) hd o ⟨ho, rfl⟩ todos pre segs hfair hlen tid td htd
 
-/-- non-vacuity: the workload `[[2],[3]]` costs 18, eighteen rounds `[1,0]` are fair, and the theorem
-    yields the finished thread 1 after an arbitrary prefix -/
-example : totalCost [[2], [3]] = 18 := by decide
+/-- **C07, total form, for the source as it is** (`sourceDisc`) -/
+theorem source_fair_run_correct (B : BasisV) (hB : C02L.ValidBasisV B) (todos : List (List Nat))
+    (pre : List Nat) (segs : List (List Nat))
+    (hfair : ∀ seg ∈ segs, ∀ tid, tid < todos.length → tid ∈ seg)
+    (hlen : totalCost sourceDisc.fast todos ≤ segs.length) (tid : Nat) (td : List Nat) (htd : todos[tid]? = some td) :
+    ∃ t, (run sourceDisc (initSys (freshObj B) todos) (pre ++ segs.flatten)).threads[tid]? = some t ∧ Done t ∧
+      t.got.map (·.1) = td ∧ ∀ g ∈ t.got, g.2.Perm (C02L.specLevel B g.1) :=
+  av_fair_run_correct lock_discipline_matches_source.2.2 B hB todos pre segs hfair hlen tid td htd
 
-example : ∃ t, (run (initSys (freshObj (.classical [[0,1]])) [[2], [3]])
+/-- non-vacuity: the workload `[[2],[3]]` costs 18 (20 with the fast path), that many rounds `[1,0]` are fair,
+    and the theorem yields the finished thread 1 after an arbitrary prefix -/
+example : ∃ t, (run (Disc.ofFlag false) (initSys (freshObj (.classical [[0,1]])) [[2], [3]])
       ([1, 1, 0] ++ (List.replicate 18 [1, 0]).flatten)).threads[1]? = some t ∧ Done t ∧
       t.got.map (·.1) = [3] ∧ ∀ g ∈ t.got, g.2.Perm (C02L.specLevel (.classical [[0,1]]) g.1) :=
-  av_fair_run_correct (.classical [[0,1]]) (⟨by decide, by decide, by decide⟩ : C02L.ValidBasis [[0,1]]) [[2], [3]] [1, 1, 0] (List.replicate 18 [1, 0])
+  av_fair_run_correct (Disc.ofFlag_ok false) (.classical [[0,1]])
+    (⟨by decide, by decide, by decide⟩ : C02L.ValidBasis [[0,1]]) [[2], [3]] [1, 1, 0] (List.replicate 18 [1, 0])
+    (by decide) (by decide) 1 [3] rfl
+
+example : ∃ t, (run (Disc.ofFlag true) (initSys (freshObj (.classical [[0,1]])) [[2], [3]])
+      ([1, 1, 0] ++ (List.replicate 20 [1, 0]).flatten)).threads[1]? = some t ∧ Done t ∧
+      t.got.map (·.1) = [3] ∧ ∀ g ∈ t.got, g.2.Perm (C02L.specLevel (.classical [[0,1]]) g.1) :=
+  av_fair_run_correct (Disc.ofFlag_ok true) (.classical [[0,1]])
+    (⟨by decide, by decide, by decide⟩ : C02L.ValidBasis [[0,1]]) [[2], [3]] [1, 1, 0] (List.replicate 20 [1, 0])
     (by decide) (by decide) 1 [3] rfl
 
 /-- the bound is about *rounds*, the machine really needs several: one round-robin pass does not finish -/
-example : ((run (initSys (freshObj (.classical [[0,1]])) [[2], [3]]) [0, 1]).threads.map (·.todo)) = [[], [3]] := by
+example : ((run (Disc.ofFlag false) (initSys (freshObj (.classical [[0,1]])) [[2], [3]]) [0, 1]).threads.map (·.todo)) = [[], [3]] := by
   decide
 
-/-- concrete run of the fair schedule: both threads end with the right levels -/
-example : ((run (initSys (freshObj (.classical [[0,1]])) [[2], [3]])
+example : ((run (Disc.ofFlag true) (initSys (freshObj (.classical [[0,1]])) [[2], [3]]) [0, 1]).threads.map
+    fun t => (pending t, t.got)) = [([2], []), ([3], [])] := by decide
+
+/-- concrete run of the fair schedule: both threads end with the right levels, under both disciplines -/
+example : ((run (Disc.ofFlag false) (initSys (freshObj (.classical [[0,1]])) [[2], [3]])
     (List.replicate 18 [1, 0]).flatten).threads.map (·.got)) = [[(2, [[1,0]])], [(3, [[2,1,0]])]] := by decide
+
+example : ((run (Disc.ofFlag true) (initSys (freshObj (.classical [[0,1]])) [[2], [3]])
+    (List.replicate 20 [1, 0]).flatten).threads.map (·.got)) = [[(2, [[1,0]])], [(3, [[2,1,0]])]] := by decide
+
+/-! ## The driver's event replay is a run of the machine
+
+`Driver.C07.replay` advances the model through the lock / growth / completion events the harness observed
+on the real threads.  Whatever the events are, the result is `run d s sched` for some schedule `sched`, so
+every theorem above applies to the states the correspondence check compares with the implementation. -/
+
+theorem advance_is_run (d : Disc) (stop : Sys → Bool) : ∀ (fuel : Nat) (s : Sys) (t : Nat),
+    ∃ k, Driver.C07.advance d stop fuel s t = run d s (List.replicate k t) := by
+  intro fuel
+  induction fuel with
+  | zero => intro s t; exact ⟨0, rfl⟩
+  | succ k ih =>
+    intro s t
+    unfold Driver.C07.advance
+    by_cases h : stop s = true
+    · exact ⟨0, by simp [h, run]⟩
+    · obtain ⟨k', hk'⟩ := ih (step d s t) t
+      exact ⟨k' + 1, by simp [h, hk', run, List.replicate_succ]⟩
+
+theorem replayEv_is_run (d : Disc) (s : Sys) (e : Driver.C07.Ev) :
+    ∃ sched, Driver.C07.replayEv d s e = run d s sched := by
+  cases e with
+  | enter t =>
+    unfold Driver.C07.replayEv
+    by_cases h : d.fast = true
+    · obtain ⟨k, hk⟩ := advance_is_run d (fun s' => Driver.C07.isCommitted s' t || Driver.C07.isDone s' t)
+        Driver.C07.fuel s t
+      exact ⟨_, by simpa [h] using hk⟩
+    · exact ⟨[], by simp [h, run]⟩
+  | acq t =>
+    obtain ⟨k, hk⟩ := advance_is_run d (fun s' => Driver.C07.isHolding s' t || Driver.C07.isDone s' t)
+      Driver.C07.fuel s t
+    exact ⟨_, hk⟩
+  | grow t =>
+    unfold Driver.C07.replayEv
+    by_cases h : Driver.C07.isHolding s t = true
+    · obtain ⟨k, hk⟩ := advance_is_run d
+        (fun s' => !Driver.C07.isHolding s' t || s'.obj.cache.length > s.obj.cache.length) Driver.C07.fuel s t
+      exact ⟨_, by simpa [h] using hk⟩
+    · exact ⟨[], by simp [h, run]⟩
+  | rel t =>
+    obtain ⟨k, hk⟩ := advance_is_run d (fun s' => !Driver.C07.isHolding s' t) Driver.C07.fuel s t
+    exact ⟨_, hk⟩
+  | done t =>
+    obtain ⟨k, hk⟩ := advance_is_run d (fun s' => Driver.C07.isDone s' t) Driver.C07.fuel s t
+    exact ⟨_, hk⟩
+
+/-- **every replay of observed events is a schedule of the machine** -/
+theorem replay_is_run (d : Disc) (evs : List Driver.C07.Ev) : ∀ (s : Sys),
+    ∃ sched, Driver.C07.replay d s evs = run d s sched := by
+  induction evs with
+  | nil => intro s; exact ⟨[], rfl⟩
+  | cons e es ih =>
+    intro s
+    obtain ⟨s1, h1⟩ := replayEv_is_run d s e
+    obtain ⟨s2, h2⟩ := ih (Driver.C07.replayEv d s e)
+    refine ⟨s1 ++ s2, ?_⟩
+    show Driver.C07.replay d (Driver.C07.replayEv d s e) es = _
+    rw [h2, h1]
+    simp [run, List.foldl_append]
+
+/-- hence the state the driver's `conc` operation reports for the source's discipline — observed events
+    replayed, then `flush` (any schedule) — satisfies C07: no thread failed, every level read is the
+    specification's -/
+theorem driver_replay_correct (B : BasisV) (hB : C02L.ValidBasisV B) (todos : List (List Nat))
+    (evs : List Driver.C07.Ev) (flush : List Nat) (tid : Nat) (t : Thread)
+    (ht : (run sourceDisc (Driver.C07.replay sourceDisc (initSys (freshObj B) todos) evs) flush).threads[tid]? = some t) :
+    (∀ e, t.phase ≠ .failed e) ∧ ∀ g ∈ t.got, g.2.Perm (C02L.specLevel B g.1) := by
+  obtain ⟨sched, hs⟩ := replay_is_run sourceDisc evs (initSys (freshObj B) todos)
+  rw [hs] at ht
+  have : run sourceDisc (run sourceDisc (initSys (freshObj B) todos) sched) flush =
+      run sourceDisc (initSys (freshObj B) todos) (sched ++ flush) := by simp [run, List.foldl_append]
+  rw [this] at ht
+  exact source_concurrent_correct B hB todos (sched ++ flush) tid t ht
+
+/-- non-vacuity: replaying the events of a run in which thread 0's query `[1]` never takes the lock
+    (it reads level 1 while thread 1 is still inside its critical section) -/
+example : ((Driver.C07.replay (Disc.ofFlag true) (initSys (freshObj (.classical [[0,1]])) [[1], [2]])
+    [.enter 1, .acq 1, .grow 1, .done 0, .grow 1, .rel 1, .done 1]).threads.map (·.got)) =
+    [[(1, [[0]])], [(2, [[1,0]])]] := by decide
 
 end C07
